@@ -45,7 +45,7 @@ REQUIRED = dict(monitors=['intensity-per-angle', 'flux', 'eclipse-spectrum', 'di
                          'rerun:evaluated-after-change', 'mode:ktable', 'ktable:continuum-only-model',
                          'ktable:model_contrib-entry-judged', 'ktable-mode:no-molecular-absorber',
                          'fault:fired:temperature', 'fault:fired:chemistry', 'fault:fired:contribution', 'fault:fired:pressure',
-                         'several:evaluation-judged', 'several:set_quadratures-on-another-model', 'wn-dtype:i'])
+                         'several:evaluation-judged', 'several:set_quadratures-on-another-model', 'wn-dtype:i', 'T-route:mixin'])
 CUT = math.exp(-10.0)
 _state = {}
 
@@ -302,7 +302,7 @@ def wl_ktable(ctx, rng):
         judge_spectrum(ctx, snap, out, res, spec, kind)
         if iso:
             wn = np.array(out[0])
-            T = spec['temperature']['T']
+            T = spec['temperature']['T'] * (spec['temperature'].get('scale') or 1.0)
             want = R.planck_taurex_units(wn, T) / R.planck_taurex_units(wn, snap['Tstar']) * (snap['Rp'] / snap['Rs']) ** 2
             ctx.close('isothermal-identity', out[1], want, 1e-9, T=T, mode='ktable', ng_k=ngk)
         # every contribution on its own (model_contrib evaluates each with the same code path): each evaluation judged
@@ -326,6 +326,7 @@ def wl_ktable(ctx, rng):
 
 def observe_case(ctx, spec, kind):
     ctx.observe('wn-dtype:' + next(iter(spec['tables'].values()))['wn'].dtype.kind)
+    ctx.observe('T-route:mixin' if spec['temperature'].get('scale') else 'T-route:plain')
     ctx.observe('model:' + kind, 'magnitude:' + spec['magnitude'], 'nlayers:%d' % spec['nlayers'],
                 'T:' + spec['temperature']['kind'], 'ngauss:%d' % spec['ngauss'])
     for c in spec['contributions']:
@@ -401,7 +402,7 @@ def wl_isothermal(ctx, rng):
     res = oracle(ctx, snap, spec)
     judge_spectrum(ctx, snap, out, res, spec, 'emission')
     wn = np.array(out[0])
-    T = spec['temperature']['T']
+    T = spec['temperature']['T'] * (spec['temperature'].get('scale') or 1.0)
     want = R.planck_taurex_units(wn, T) / R.planck_taurex_units(wn, snap['Tstar']) * (snap['Rp'] / snap['Rs']) ** 2
     # with the licensed clamp the bottom term may be off by exp(-10)*B
     rtol = 1e-9 + (CUT if res['clampable'] else 0.0)
